@@ -117,7 +117,7 @@ pub fn error_class(msg: &str) -> &'static str {
         "index"
     } else if msg.contains("StackOverflow") || msg.contains("stack has overflowed") || msg.contains("The stack") {
         "stackoverflow"
-    } else if msg.contains("Out of memory") || msg.contains("OutOfMemory") {
+    } else if msg.contains("out of memory") || msg.contains("Out of memory") || msg.contains("OutOfMemory") {
         "oom"
     } else if msg.contains("Interrupted") || msg.contains("interrupted") {
         "interrupted"
